@@ -135,7 +135,7 @@ def predicate(ops, out):
     closed = False
     for op, o in zip(ops, out):
         f = op.split()
-        if o in ("panic", "bad-op") or o.startswith("err-") or o.startswith("eof+"):
+        if o in ("panic", "bad-op") or (o.startswith("err-") and o != "err-blocked") or o.startswith("eof+"):
             return f"unexpected result `{o}` for `{op}`"
         if f[0] == "new":
             sent, got, n_text, n_err, n_empty_msgs, n_empty_reads, closed = b"", b"", 0, 0, 0, 0, False
@@ -161,7 +161,7 @@ def predicate(ops, out):
                             f"{len(sent)-len(got)} byte(s) of the binary messages were never delivered")
                 if n_err != n_text:
                     return f"end of stream after {n_err} type errors for {n_text} text messages"
-            elif o == "blocked":
+            elif o == "err-blocked":      # Read hit its 5 s deadline (core retries the case alone before believing it)
                 if len(got) < len(sent) or n_err < n_text or closed:
                     return (f"`{op}` blocked although {len(sent)-len(got)} byte(s) of already received messages "
                             f"were still undelivered (delivered {len(got)} of {len(sent)})")
@@ -223,28 +223,51 @@ PAYLOAD_SIZES = [0, 1, 2, 50, 100, 1000, 1017, 1018, 1019, 1020, 2041, 2042, 204
 
 
 def gen_echo(rng):
+    """one MQTT 3.1.1 session (CONNECT, SUBSCRIBE t, QoS 0 PUBLISHes to t) cut into WebSocket messages.
+    `packed` cases run against a broker configured with a SMALL max_packet_size (64 / 128): every MQTT packet is smaller than
+    that, but WebSocket messages carry several of them and are longer than it (and exactly limit-1 / limit / limit+1 bytes):
+    the limit is about MQTT packets, the segmentation into messages must not matter."""
     cid = [rng.choice(b"abcdefghijklmnop") for _ in range(6)]
     connect = [0x10, 12 + len(cid), 0, 4] + list(b"MQTT") + [4, 2, 0, 0, 0, len(cid)] + cid
     subscribe = [0x82, 6, 0, 1, 0, 1, 0x74, 0]
     packets = [connect, subscribe]
+    mp = rng.choice([64, 64, 128]) if rng.random() < 0.4 else 0
     k = 0
-    for _ in range(rng.choice([1, 1, 2, 3, 6])):
-        n = rng.choice(PAYLOAD_SIZES) if rng.random() < 0.7 else rng.randint(0, 5000)
-        body = [0, 1, 0x74] + [stream_byte(k + i) for i in range(n)]
-        k += n
-        packets.append([0x30] + varint(len(body)) + body)
+    if mp:
+        for _ in range(rng.choice([3, 5, 8, 12, 20])):
+            n = rng.choice([0, 1, 3, 10, mp // 2, mp - 6, mp - 5]) if rng.random() < 0.7 else rng.randint(0, mp - 5)   # packet <= mp bytes
+            body = [0, 1, 0x74] + [stream_byte(k + i) for i in range(n)]
+            k += n
+            packets.append([0x30] + varint(len(body)) + body)
+    else:
+        for _ in range(rng.choice([1, 1, 2, 3, 6])):
+            n = rng.choice(PAYLOAD_SIZES) if rng.random() < 0.7 else rng.randint(0, 5000)
+            body = [0, 1, 0x74] + [stream_byte(k + i) for i in range(n)]
+            k += n
+            packets.append([0x30] + varint(len(body)) + body)
     stream = [b for p in packets for b in p]
-    style = rng.choice(["aligned", "one", "fixed", "fixed", "random", "random", "bytes", "tail1"])
+    ends, pos = [], 0
+    for p in packets:
+        pos += len(p); ends.append(pos)
+    if mp:
+        style = rng.choice(["one", "fixed", "fixed", "grouped", "grouped", "random", "after-sub"])
+    else:
+        style = rng.choice(["aligned", "one", "fixed", "fixed", "random", "random", "bytes", "tail1"])
     cuts = []
     if style == "aligned":
-        pos = 0
-        for p in packets:
-            pos += len(p); cuts.append(pos)
+        cuts = list(ends)
     elif style == "one":
         cuts = [len(stream)]
     elif style == "fixed":
-        sz = rng.choice([1023, 1024, 1025, 2047, 2048, 2049, 7, 100])
+        sz = rng.choice([mp - 1, mp, mp + 1, 2 * mp, 2 * mp + 1, 3 * mp + 7]) if mp else rng.choice([1023, 1024, 1025, 2047, 2048, 2049, 7, 100])
         cuts = list(range(sz, len(stream), sz)) + [len(stream)]
+    elif style == "grouped":     # whole packets, several per message: each message is legal packet by packet and longer than mp
+        i = 0
+        while i < len(ends):
+            i = min(len(ends), i + rng.choice([2, 3, 5, 9]))
+            cuts.append(ends[i - 1])
+    elif style == "after-sub":   # handshake packet by packet, then all publishes in one message
+        cuts = [ends[0], ends[1], len(stream)]
     elif style == "bytes" and len(stream) <= 400:
         cuts = list(range(1, len(stream) + 1))
     elif style == "tail1":      # every message ends one byte after / before a multiple of 1024 from its start, or at a packet end
@@ -254,15 +277,13 @@ def gen_echo(rng):
             cuts.append(pos)
     else:
         pos = 0
+        hi = 4 * mp if mp else 3000
         while pos < len(stream):
-            pos = min(len(stream), pos + (rng.randint(1, 3000) if rng.random() < 0.6 else rng.randint(1, 10)))
+            pos = min(len(stream), pos + (rng.randint(1, hi) if rng.random() < 0.6 else rng.randint(1, 10)))
             cuts.append(pos)
-    ops = ["new"]
+    ops = [f"new {mp}" if mp else "new"]
     if rng.random() < 0.03:
         return ops + ["msg t " + hx(connect), "recv 4"]          # a text message instead of the CONNECT: no answer, closed
-    ends, pos = [], 0
-    for p in packets:
-        pos += len(p); ends.append(pos)
     resp_at = lambda upto: 4 * (upto >= ends[0]) + 5 * (upto >= ends[1]) + sum(len(p) for p, e in zip(packets[2:], ends[2:]) if upto >= e)
     prev = taken = 0
     for c in cuts:
@@ -276,8 +297,8 @@ def gen_echo(rng):
             taken += avail
     if resp_at(len(stream)) - taken > 0:
         ops.append(f"recv {resp_at(len(stream)) - taken}")
-    if rng.random() < 0.015:
-        ops.append("recv 1")          # nothing more may arrive
+    if rng.random() < 0.05:
+        ops.append("quiet")           # nothing more may arrive
     return ops
 
 
@@ -313,43 +334,55 @@ def expected_response(sent):
 def pred_echo(ops, out):
     if len(out) != len(ops) or (out and out[0].startswith("CRASH")):
         return "implementation crashed or hung: " + (out[0] if out else "")
-    sent, taken, text = b"", 0, False
+    sent, taken, text, mp = b"", 0, False, 0
+    nmsg = 0
     for op, o in zip(ops, out):
         f = op.split()
-        if o in ("bad-op", "err-dial", "text-frame", "panic"):
+        if o in ("bad-op", "text-frame", "panic") or (o.startswith("err-") and not o.startswith("err-timeout:")):
             return f"unexpected result `{o}` for `{op}`"
         if f[0] == "new":
-            sent, taken, text = b"", 0, False
+            sent, taken, text, nmsg = b"", 0, False, 0
+            mp = int(f[1]) if len(f) == 2 else 0
         elif f[0] == "msg":
+            nmsg += 1
             if f[1] == "b":
                 sent += unhx(f[2])
             else:
                 text = True
-        elif f[0] == "recv":
-            n = int(f[1])
+        elif f[0] in ("recv", "quiet"):
             if text:
-                if not o.endswith("+closed") or o != "-+closed":
+                if o != "closed:-":
                     return f"`{op}` after a text message: `{o[:40]}`, expected the connection to be closed without any answer"
                 continue
-            want = expected_response(sent)[taken:taken + n]
+            due = expected_response(sent)[taken:]
+            if f[0] == "quiet":
+                if o != ("quiet" if not due else due.hex()):
+                    return f"`{op}`: {len(due)} more answer bytes are due, got `{o[-60:]}`"
+                taken += len(due)
+                continue
+            n = int(f[1])
+            want = due[:n]
             if len(want) < n:
-                if o != (want.hex() or "-") + "+timeout":
+                if o != "err-timeout:" + (want.hex() or "-"):
                     return f"`{op}`: only {len(want)} more bytes are due, got `{o[-60:]}`"
                 taken += len(want)
                 continue
             if o != want.hex():
-                got = o.split("+")[0]
+                how, _, got = o.rpartition(":")
                 gb = unhx(got) if is_hex(got) else b""
                 k = next((i for i in range(len(want)) if i >= len(gb) or gb[i] != want[i]), len(want))
+                ended = {"closed": ", then the broker closed the connection", "err-timeout": ", then nothing for 8 s"}.get(how, "")
+                cfg = f" (broker max_packet_size={mp}, largest MQTT packet sent is within it)" if mp else ""
                 return (f"`{op}`: the broker's answer differs from the MQTT answer to the concatenated payloads at answer offset "
-                        f"{taken+k} (got {len(gb)} bytes{', then ' + o.split('+')[1] if '+' in o else ''}): after {len(sent)} stream bytes "
-                        f"in {sum(1 for x in ops if x.startswith('msg'))} messages the broker has not processed the exact byte stream")
+                        f"{taken+k} (got {len(gb)} bytes{ended}): after {len(sent)} stream bytes in {nmsg} WebSocket messages the "
+                        f"broker has not processed the exact byte stream{cfg}")
             taken += n
     return None
 
 
 def nontrivial_echo(ops, out):
-    """some WebSocket message boundary falls strictly inside an MQTT packet and some PUBLISH is echoed"""
+    """some WebSocket message boundary falls strictly inside an MQTT packet (or, with a small max_packet_size, some message
+    longer than that limit carries two or more packets) and some PUBLISH is echoed"""
     sizes = [len(unhx(o.split()[2])) for o in ops if o.startswith("msg b")]
     sent = b"".join(unhx(o.split()[2]) for o in ops if o.startswith("msg b"))
     ends, i = set(), 0
@@ -362,12 +395,15 @@ def nontrivial_echo(ops, out):
                 break
         i = j + ln
         ends.add(i)
+    mp = int(ops[0].split()[1]) if len(ops[0].split()) == 2 else 0
     pos, inside = 0, False
     for s_ in sizes:
+        if mp and s_ > mp and sum(1 for e in ends if pos < e <= pos + s_) >= 2:
+            inside = True
         pos += s_
         if pos not in ends and pos < len(sent):
             inside = True
-    return inside and any(op.startswith("recv") and len(o) > 20 and "+" not in o for op, o in zip(ops, out))
+    return inside and any(op.startswith("recv") and len(o) > 20 and ":" not in o for op, o in zip(ops, out))
 
 
 def rec_f01(info):
@@ -397,8 +433,16 @@ RULE = ("one real gorilla/websocket connection per case on loopback TCP, upgrade
         "wsConn.Write of 0..1025 bytes is observed at the client. Each case runs through the real code and the Lean model and is compared "
         "line by line; the Python predicate re-checks the property (returned chunks = next bytes of the concatenated binary payloads, "
         "complete at end of stream, text => error). non-trivial = distinct case in which some Read stops strictly inside a message and "
-        "the stream is read to its end")
+        "the stream is read to its end. "
+        "wsecho: a real broker per configuration (default, max_packet_size 64, 128) with the handler WsServer listeners get on loopback HTTP; "
+        "a gorilla client sends an MQTT 3.1.1 session (CONNECT, SUBSCRIBE, 1-20 QoS 0 PUBLISHes of 0..5000 bytes, resp. all <= max_packet_size) "
+        "cut into WebSocket messages aligned / all-in-one / fixed 7,100,1023..1025,2047..2049 resp. limit-1,limit,limit+1,2*limit(+1) / "
+        "groups of 2-9 whole packets (messages longer than max_packet_size made of legal small packets) / byte by byte / random, with "
+        "interleaved collection of the answers; the answer bytes (CONNACK, SUBACK, echoed PUBLISHes) must be those of the concatenated "
+        "stream whatever the segmentation and configuration. non-trivial = a message boundary strictly inside a packet, or a message longer "
+        "than a small max_packet_size carrying >= 2 packets, and a PUBLISH echoed")
 ASSUME = ["gorilla/websocket and the kernel deliver whole data messages in order (ReadMessage returns one message per call)",
           "Read is called by one goroutine (the broker's readLoop); Write by one goroutine (writeLoop)",
           "reads that would block are not issued (blocking is ReadMessage waiting for the peer, not wsConn logic)",
-          "the end-to-end path WsServer -> wsHandler -> packet reader is exercised by stream wsecho when present"]
+          "stream wsecho: the handler WsServer listeners get (wsHandler) on a loopback HTTP server, not ListenAndServe itself; MQTT 3.1.1 "
+          "sessions only, so max_packet_size (64/128/default) never applies to the MQTT packets themselves; answers compared byte for byte"]
